@@ -269,3 +269,43 @@ Example c05_okta_history :
         [Login 1 true; OktaOtp [0%nat] (VGood 1); OktaPushStart [0%nat]; OktaApprove 1; OktaPoll [0%nat]])
   = [(true, Some (1, 2)); (false, None); (false, None); (true, None); (false, None)]%N.
 Proof. split; vm_compute; reflexivity. Qed.
+
+(* ---- a refused second-factor attempt is pure (round 5) ---- *)
+From KM Require Import Model.SessionPure Proofs.SessionPure.
+
+(* For EVERY configuration of the code (repaired or not), EVERY state (reachable or not) and every
+   ATTEMPT — a request that presents something to be verified: a VIP / Okta pass code, a TOTP code, a
+   bootstrap OTP, a hardware-token assertion, the poll of a push transaction, a CLI token; bare, with a
+   client certificate, while profile writes fail, or served from the cache —: if the attempt is REFUSED
+   (it verifies nothing and emits no cookie) then it leaves the state exactly as the request found it
+   (`found`: the only difference to `s` is the ghost note of a presented certificate).  In particular
+   the stored profile (TOTP counter, bootstrap OTP) and the pending one-time values (challenges, push
+   transactions, CLI tokens) after a refused attempt equal those before: a failed attempt writes
+   nothing.  The model has no throttling state (the TOTP pause / lock-out record is C14's subject):
+   that is all a failed attempt may change in the code. *)
+Theorem c05_failed_attempt_pure : forall k s o,
+  attempt o = true -> refused k s o = true ->
+  step k s o = (found s o, None) /\ durable (fst (step k s o)) = durable s.
+Proof. intros k s o Ha Hr. split; [exact (refused_pure k s o Ha Hr) | exact (refused_durable k s o Ha Hr)]. Qed.
+
+(* ... which is what makes every interleaving of a refused attempt `w` with another request `b` harmless:
+   whichever of the two runs first, the final state and the answer of `b` are those of `b` alone.  At
+   storage granularity a refused attempt consists of reads only, so every interleaving of its storage
+   operations with those of `b` is one of these two orders (the harness enumerates the schedules of the
+   real handlers and checks exactly this: C05:onetime:<kind>:after-overlap). *)
+Theorem c05_failed_attempt_commutes : forall k s w b,
+  attempt w = true -> plain w = true ->
+  refused k s w = true -> refused k (fst (step k s b)) w = true ->
+  both k s w b = (fst (step k s b), (None, snd (step k s b))) /\
+  both k s b w = (fst (step k s b), (snd (step k s b), None)).
+Proof. exact refused_commutes. Qed.
+
+(* non-vacuity: a wrong bootstrap OTP / TOTP code is refused, the right one is not; right value || wrong
+   value in either order, then the right value again on a fresh session: refused *)
+Example c05_refused_examples :
+  refused kx s_pending (Bootstrap [1%nat] BBad) = true /\
+  refused kx s_pending (Bootstrap [1%nat] (BCode 2 0)) = false /\
+  refused kx s_pending (Totp [0%nat] TBad) = true /\
+  refused kx s_pending (Totp [0%nat] (TCode 1 100)) = false /\
+  snd (both kx (fst (both kx s_pending (Bootstrap [1%nat] BBad) (Bootstrap [1%nat] (BCode 2 0)))) (Login 2 true) (Bootstrap [3%nat] (BCode 2 0))) = (snd (step kx s_pending (Login 2 true)), None).
+Proof. exact refused_examples. Qed.
